@@ -7,6 +7,7 @@ import (
 	"path/filepath"
 	"sort"
 	"strconv"
+	"strings"
 	"testing"
 	"time"
 
@@ -97,6 +98,14 @@ func TestWorker(t *testing.T) {
 	start := time.Now()
 	sum := &Summary{Prop: id, Mode: mode, From: from, Probes: map[string]int{}, Faults: map[string]int{}, Extra: map[string]int{}, Subs: map[string]int{}}
 
+	known := map[string]bool{}
+	knownSeen := map[string]int{}
+	unlisted := 0
+	for _, k := range strings.Split(os.Getenv("VSIM_KNOWN"), "\n") {
+		if k != "" {
+			known[k] = true
+		}
+	}
 	switch mode {
 	case "info":
 		sum.Info = map[string]interface{}{
@@ -148,8 +157,22 @@ func TestWorker(t *testing.T) {
 						panic(err)
 					}
 				}
+				if known[v.Signature()] {
+					// a listed finding: keep a few examples, never let it end the sweep early
+					knownSeen[v.Signature()]++
+					if knownSeen[v.Signature()] <= 2 {
+						sum.Violations = append(sum.Violations, vf)
+					} else {
+						sum.Extra["known_finding_runs_not_listed_individually"]++
+						if vf.TapeFile != "" {
+							os.Remove(vf.TapeFile)
+						}
+					}
+					continue
+				}
+				unlisted++
 				sum.Violations = append(sum.Violations, vf)
-				if len(sum.Violations) >= 6 {
+				if unlisted >= 6 {
 					break
 				}
 			}
